@@ -70,6 +70,20 @@ Definition fc_dup (h : header) : bool := negb (length (dedup (h_bks h)) =? lengt
 Definition in_finding_class (st : store) (h : header) : bool :=
   fc_stale st h || fc_threshold st h || fc_dup h.
 
+(** fourth class, a property of the STORE: the peer-map entry consulted is not the id set of the
+    configuration carried by the indexed header at that height (verifyHeader writes
+    vbftPeerInfoMap[header.Height] for every header it accepts, also on the AddBlock path where
+    the header need not be the indexed one).  Excluded by the store invariant. *)
+Definition fc_overwritten (st : store) (h : header) : bool :=
+  match claimed st h with
+  | Some g =>
+      match lookup g (st_peers st) with
+      | Some peers => negb (entry_ok st (g, peers))
+      | None => false
+      end
+  | None => false
+  end.
+
 (** the conclusion of the property for one header *)
 Definition governed_quorum (st : store) (h : header) : Prop :=
   exists g hg cc, gov_height st (h_height h) = Some g /\ header_at st g = Some hg /\
@@ -296,7 +310,7 @@ Proof.
   exists g, hg, cc, peers. repeat (split; [assumption|]).
   unfold two32. intros Hc Hl. exists (dedup (h_bks h)). split; [apply dedup_NoDup|].
   pose proof (dedup_length_le (h_bks h)). split; [lia|].
-  intros k Hk. apply dedup_In in Hk. split; auto. Show.
+  intros k Hk. apply (proj1 (dedup_In _ _)) in Hk. split; auto.
 Qed.
 
 (** the generated threshold asks for at least one signature as soon as there is a peer *)
@@ -375,11 +389,11 @@ Proof.
   destruct (k' =? k)%N eqn:E; [apply N.eqb_eq in E; subst; intros H; inversion H; auto|auto].
 Qed.
 
-Lemma accept_partial st h r :
-  store_wf st -> h_height h <> 0%N -> verify_header st h = ROk r ->
-  in_finding_class st h = false -> governed_quorum st h.
+Lemma accept_partial_gen st h r :
+  h_height h <> 0%N -> verify_header st h = ROk r ->
+  fc_overwritten st h = false -> in_finding_class st h = false -> governed_quorum st h.
 Proof.
-  intros Hwf Hh H Hfc.
+  intros Hh H How Hfc.
   destruct (verify_header_ok _ _ _ Hh H) as (g & hg & cc & peers & [H1 H2 H3 H4 [r' H5]]).
   unfold in_finding_class in Hfc. apply orb_false_iff in Hfc. destruct Hfc as [Hfc Hdup].
   apply orb_false_iff in Hfc. destruct Hfc as [Hstale Hthr].
@@ -387,6 +401,8 @@ Proof.
   unfold fc_threshold in Hthr. rewrite H1, H4, H2, H3 in Hthr. unfold threshold_short in Hthr.
   apply Z.ltb_ge in Hthr.
   unfold fc_dup in Hdup. apply negb_false_iff in Hdup. apply Nat.eqb_eq in Hdup. apply dedup_full_NoDup in Hdup.
+  unfold fc_overwritten in How. rewrite H1, H4 in How. apply negb_false_iff in How.
+  unfold entry_ok in How. simpl in How. rewrite H2, H3 in How.
   apply check_quorum_ok in H5. destruct H5 as (_ & Hmem & _ & Hv).
   apply verify_multi_ok in Hv. destruct Hv as (jks & Hl & Hnd & Hin & Hf).
   exists g, hg, cc. repeat (split; [assumption|]).
@@ -395,9 +411,370 @@ Proof.
   intros k Hk. apply in_map_iff in Hk. destruct Hk as [[j k'] [Hs Hi]]. simpl in Hs; subst k'.
   split.
   - assert (Hp : In k peers) by (apply Hmem; eapply nth_error_In; apply (Hin _ _ Hi)).
-    unfold store_wf, store_wfb in Hwf. rewrite forallb_forall in Hwf.
-    specialize (Hwf _ (lookup_In _ _ _ H4)). unfold entry_ok in Hwf. simpl in Hwf.
-    rewrite H2, H3 in Hwf. eapply keyset_sub; eauto.
+    eapply keyset_sub; eauto.
   - destruct (Forall2_In_l _ _ _ _ Hf Hi) as [s [Hs1 Hs2]]. simpl in Hs2; subst s.
     apply firstn_In in Hs1. exact Hs1.
+Qed.
+
+Lemma wf_not_overwritten st h : store_wf st -> fc_overwritten st h = false.
+Proof.
+  intros Hwf. unfold fc_overwritten. destruct (claimed st h) as [g|]; auto.
+  destruct (lookup g (st_peers st)) as [peers|] eqn:E; auto.
+  unfold store_wf, store_wfb in Hwf. rewrite forallb_forall in Hwf.
+  rewrite (Hwf _ (lookup_In _ _ _ E)). reflexivity.
+Qed.
+
+Lemma accept_partial st h r :
+  store_wf st -> h_height h <> 0%N -> verify_header st h = ROk r ->
+  in_finding_class st h = false -> governed_quorum st h.
+Proof. intros Hwf Hh H Hfc. eapply accept_partial_gen; eauto. apply wf_not_overwritten; auto. Qed.
+
+(** * Histories: AddHeader keeps the store invariant *)
+
+(** every index entry resolves to a stored header *)
+Definition store_closed (st : store) : Prop :=
+  forall j x, In (j, x) (st_index st) -> header_by_hash (st_headers st) x <> None.
+
+(** assoc lists with distinct keys *)
+Definition keys_nodup {A} (l : list (N * A)) : Prop := NoDup (map fst l).
+
+Lemma set_entry_fst_in {A} k (x : A) l j :
+  In j (map fst (set_entry k x l)) -> j = k \/ In j (map fst l).
+Proof.
+  induction l as [|[k' v'] l IH]; simpl.
+  - intros [<-|[]]; auto.
+  - destruct (k' =? k)%N eqn:E; simpl.
+    + apply N.eqb_eq in E; subst k'. tauto.
+    + intros [<-|Hi]; auto. destruct (IH Hi); auto.
+Qed.
+
+Lemma set_entry_keys_nodup {A} k (x : A) l : keys_nodup l -> keys_nodup (set_entry k x l).
+Proof.
+  unfold keys_nodup. induction l as [|[k' v'] l IH]; simpl; intros H.
+  - constructor; auto; constructor.
+  - inversion H; subst. destruct (k' =? k)%N eqn:E; simpl.
+    + apply N.eqb_eq in E; subst k'. constructor; auto.
+    + constructor; auto. intro Hi. apply set_entry_fst_in in Hi. destruct Hi as [->|Hi]; auto.
+      rewrite N.eqb_refl in E; discriminate.
+Qed.
+
+Lemma set_entry_In {A} k (x : A) l e :
+  keys_nodup l -> In e (set_entry k x l) -> e = (k, x) \/ (In e l /\ fst e <> k).
+Proof.
+  unfold keys_nodup. induction l as [|[k' v'] l IH]; simpl; intros Hnd.
+  - intros [<-|[]]; auto.
+  - inversion Hnd; subst. destruct (k' =? k)%N eqn:E.
+    + apply N.eqb_eq in E; subst k'. intros [<-|Hi]; auto.
+      right. split; auto. intro Heq. apply H1. rewrite <- Heq. apply in_map; auto.
+    + intros [<-|Hi].
+      * right. split; auto. simpl. intro Heq; subst. rewrite N.eqb_refl in E; discriminate.
+      * destruct (IH H2 Hi) as [->|[Hi' Hne]]; auto.
+Qed.
+
+Lemma lookup_set_entry_same {A} k (x : A) l : lookup k (set_entry k x l) = Some x.
+Proof.
+  induction l as [|[k' v'] l IH]; simpl; [rewrite N.eqb_refl; auto|].
+  destruct (k' =? k)%N eqn:E; simpl; [rewrite N.eqb_refl; auto|rewrite E; auto].
+Qed.
+
+Lemma lookup_set_entry_other {A} k (x : A) l j : j <> k -> lookup j (set_entry k x l) = lookup j l.
+Proof.
+  intros Hne. induction l as [|[k' v'] l IH]; simpl.
+  - destruct (k =? j)%N eqn:E; auto. apply N.eqb_eq in E; congruence.
+  - destruct (k' =? k)%N eqn:E; simpl.
+    + apply N.eqb_eq in E; subst k'. destruct (k =? j)%N eqn:E2; auto. apply N.eqb_eq in E2; congruence.
+    + destruct (k' =? j)%N; auto.
+Qed.
+
+Record store_inv (st : store) : Prop := {
+  inv_wf : store_wf st;
+  inv_closed : store_closed st;
+  inv_index_keys : keys_nodup (st_index st);
+  inv_peer_keys : keys_nodup (st_peers st) }.
+
+Lemma keyset_eqb_dedup l : keyset_eqb (dedup l) l = true.
+Proof.
+  unfold keyset_eqb. apply andb_true_iff; split; apply forallb_forall; intros k Hk; apply memk_In.
+  - apply (proj1 (dedup_In _ _)); auto.
+  - apply (proj2 (dedup_In _ _)); auto.
+Qed.
+
+(** the peer-map entry an accepting verifyHeader writes is determined by the header itself *)
+Lemma verify_header_newpeers st h r :
+  h_height h <> 0%N -> verify_header st h = ROk r ->
+  r = match cfg_of h with
+      | Some nc => Some (h_height h, dedup (cc_peers nc))
+      | None => None
+      end.
+Proof.
+  intros Hh. unfold verify_header.
+  destruct (h_height h =? 0)%N eqn:E0; [apply N.eqb_eq in E0; contradiction|].
+  destruct (header_by_hash _ _); [|discriminate]. destruct (negb _); [discriminate|].
+  destruct (_ <=? _)%N; [discriminate|]. unfold cfg_of.
+  destruct (h_info h) as [bi|] eqn:Ebi; [|discriminate].
+  destruct (claimed_cfg_height _ _); [|discriminate]. destruct (header_at _ _) as [hg|]; [|discriminate].
+  destruct (h_info hg) as [cbi|]; [|discriminate]. destruct (bi_newcfg cbi); [|discriminate].
+  destruct (lookup _ _); [|discriminate]. destruct (check_quorum _ _ _); try discriminate.
+  intros H; inversion H; reflexivity.
+Qed.
+
+Lemma add_header_inv st h st' :
+  store_inv st -> (st_tip st + 1 < two32)%N ->
+  header_by_hash (st_headers st) (h_hash h) = None ->
+  add_header st h = AddOk st' -> store_inv st'.
+Proof.
+  intros [Hwf Hcl Hik Hpk] Htip Hfresh. unfold add_header.
+  destruct (negb _) eqn:Eh; [discriminate|].
+  apply negb_false_iff in Eh. apply N.eqb_eq in Eh.
+  assert (Hh : h_height h <> 0%N) by (rewrite Eh, N.mod_small by exact Htip; lia).
+  destruct (verify_header st h) as [r| | | | | | | | | | | | |] eqn:Ev; try discriminate.
+  intros H; inversion H; subst st'; clear H.
+  pose proof (verify_header_newpeers _ _ _ Hh Ev) as Hr.
+  set (H := h_height h) in *.
+  assert (Hat_other : forall j, j <> H ->
+            match lookup j (set_entry H (h_hash h) (st_index st)) with
+            | Some x => header_by_hash (h :: st_headers st) x
+            | None => None end = header_at st j).
+  { intros j Hne. rewrite lookup_set_entry_other by auto. unfold header_at.
+    destruct (lookup j (st_index st)) as [x|] eqn:El; auto.
+    simpl. destruct (h_hash h =? x)%N eqn:E; auto.
+    apply N.eqb_eq in E; subst x. exfalso. apply (Hcl j (h_hash h)); auto. apply lookup_In; auto. }
+  assert (Hidx : st_index (apply_verify st (ROk r)) = st_index st) by (destruct r as [[g ps]|]; reflexivity).
+  assert (Hhs : st_headers (apply_verify st (ROk r)) = st_headers st) by (destruct r as [[g ps]|]; reflexivity).
+  unfold apply_verify in Hidx, Hhs.
+  constructor.
+  - (* wf *)
+    unfold store_wf, store_wfb. apply forallb_forall. intros [j v] He.
+    unfold entry_ok, header_at. cbn [fst snd st_index st_headers st_peers] in *.
+    rewrite Hidx, Hhs.
+    destruct (N.eq_dec j H) as [->|Hne].
+    + rewrite lookup_set_entry_same. simpl. rewrite N.eqb_refl.
+      destruct (cfg_of h) as [nc|] eqn:Enc; auto. subst r. simpl in He.
+      apply set_entry_In in He; auto. destruct He as [He|[_ Hne]]; [|simpl in Hne; congruence].
+      inversion He; subst. apply keyset_eqb_dedup.
+    + rewrite (Hat_other j Hne).
+      assert (He' : In (j, v) (st_peers st)).
+      { destruct (cfg_of h) as [nc|]; subst r; simpl in He; auto.
+        apply set_entry_In in He; auto. destruct He as [He|[He _]]; auto. inversion He; congruence. }
+      unfold store_wf, store_wfb in Hwf. rewrite forallb_forall in Hwf.
+      apply (Hwf _ He').
+  - (* closed *)
+    unfold store_closed. cbn [st_index st_headers]. rewrite Hidx, Hhs. intros j x Hi.
+    apply set_entry_In in Hi; auto. destruct Hi as [Hi|[Hi _]].
+    + inversion Hi; subst. simpl. rewrite N.eqb_refl. discriminate.
+    + simpl. destruct (h_hash h =? x)%N; [discriminate|]. apply (Hcl j x Hi).
+  - cbn [st_index]. rewrite Hidx. apply set_entry_keys_nodup; auto.
+  - cbn [st_peers]. destruct r as [[g ps]|]; simpl; auto. apply set_entry_keys_nodup; auto.
+Qed.
+
+(** stores reachable from [st0] by successful AddHeader calls with fresh header hashes *)
+Inductive reachable (st0 : store) : store -> Prop :=
+| reach_refl : reachable st0 st0
+| reach_add st h st' : reachable st0 st -> (st_tip st + 1 < two32)%N ->
+    header_by_hash (st_headers st) (h_hash h) = None ->
+    add_header st h = AddOk st' -> reachable st0 st'.
+
+Lemma reachable_inv st0 st : store_inv st0 -> reachable st0 st -> store_inv st.
+Proof. intros H0 Hr. induction Hr; auto. eapply add_header_inv; eauto. Qed.
+
+(** * Witnesses (finding F11) *)
+Local Open Scope N_scope.
+
+Definition mk_cfg_header (height hash time last : N) (c : N) (peers : list key) : header :=
+  {| h_height := height; h_prev := 0; h_time := time;
+     h_info := Some {| bi_last := last; bi_newcfg := Some {| cc_c := c; cc_peers := peers |} |};
+     h_bks := []; h_sigs := []; h_hash := hash |}.
+
+Definition peers7 : list key := [1;2;3;4;5;6;7].
+Definition peers14 : list key := [1;2;3;4;5;6;7;8;9;10;11;12;13;14].
+Definition peers14b : list key := [21;22;23;24;25;26;27;28;29;30;31;32;33;34].
+
+(** W1: configuration N=7, C=2 at the genesis header; a header at height 1 that lists three
+    members and carries ONE valid signature *)
+Definition w1_genesis := mk_cfg_header 0 100 0 4294967295 2 peers7.
+Definition w1_store : store :=
+  {| st_headers := [w1_genesis]; st_index := [(0, 100)]; st_peers := [(0, peers7)]; st_tip := 0 |}.
+Definition w1_header : header :=
+  {| h_height := 1; h_prev := 100; h_time := 1;
+     h_info := Some {| bi_last := 0; bi_newcfg := None |};
+     h_bks := [1;2;3]; h_sigs := [SBy 1 200]; h_hash := 200 |}.
+
+(** W2: N=14, C=1 (m = 2 >= C+1); one member listed twice, its one signature sent twice *)
+Definition w2_genesis := mk_cfg_header 0 100 0 4294967295 1 peers14.
+Definition w2_store : store :=
+  {| st_headers := [w2_genesis]; st_index := [(0, 100)]; st_peers := [(0, peers14)]; st_tip := 0 |}.
+Definition w2_header : header :=
+  {| h_height := 1; h_prev := 100; h_time := 1;
+     h_info := Some {| bi_last := 0; bi_newcfg := None |};
+     h_bks := [1;1;2]; h_sigs := [SBy 1 200; SBy 1 200]; h_hash := 200 |}.
+
+(** W3: the configuration changed at height 1 (new peer set 21..34); a header at height 2 names
+    height 0 as its configuration and is signed by two members of the OLD set *)
+Definition w3_h1 : header :=
+  {| h_height := 1; h_prev := 100; h_time := 1;
+     h_info := Some {| bi_last := 0; bi_newcfg := Some {| cc_c := 1; cc_peers := peers14b |} |};
+     h_bks := [1;2]; h_sigs := [SBy 1 101; SBy 2 101]; h_hash := 101 |}.
+Definition w3_store : store :=
+  {| st_headers := [w3_h1; w2_genesis]; st_index := [(0, 100); (1, 101)];
+     st_peers := [(0, peers14); (1, peers14b)]; st_tip := 1 |}.
+Definition w3_header : header :=
+  {| h_height := 2; h_prev := 101; h_time := 2;
+     h_info := Some {| bi_last := 0; bi_newcfg := None |};
+     h_bks := [1;2]; h_sigs := [SBy 1 202; SBy 2 202]; h_hash := 202 |}.
+
+(** a good header for W2's store: two distinct members, two valid signatures *)
+Definition good_header : header :=
+  {| h_height := 1; h_prev := 100; h_time := 1;
+     h_info := Some {| bi_last := 0; bi_newcfg := None |};
+     h_bks := [3;9]; h_sigs := [SBy 9 200; SBy 3 200]; h_hash := 200 |}.
+
+Lemma w3_reachable : add_header w2_store w3_h1 = AddOk w3_store.
+Proof. vm_compute. reflexivity. Qed.
+
+Lemma NoDup_all_eq (a : key) (S : list key) : NoDup S -> (forall k, In k S -> k = a) -> (length S <= 1)%nat.
+Proof.
+  intros Hnd Hall. destruct S as [|x [|y S]]; simpl; try lia.
+  exfalso. inversion Hnd; subst. apply H1. left.
+  rewrite (Hall x), (Hall y); simpl; auto.
+Qed.
+
+Lemma w1_not_quorum : ~ governed_quorum w1_store w1_header.
+Proof.
+  intros (g & hg & cc & Hg & Hhg & Hcc & S & Hnd & Hlen & Hall).
+  vm_compute in Hg. inversion Hg; subst g; clear Hg.
+  vm_compute in Hhg. inversion Hhg; subst hg; clear Hhg.
+  vm_compute in Hcc. inversion Hcc; subst cc; clear Hcc.
+  assert (length S <= 1)%nat.
+  { apply (NoDup_all_eq 1); auto. intros k Hk. destruct (Hall k Hk) as [_ Hs].
+    unfold signed_by in Hs. simpl in Hs. destruct Hs as [Hs|[]]. inversion Hs; auto. }
+  simpl in Hlen. lia.
+Qed.
+
+Lemma w2_not_quorum : ~ governed_quorum w2_store w2_header.
+Proof.
+  intros (g & hg & cc & Hg & Hhg & Hcc & S & Hnd & Hlen & Hall).
+  vm_compute in Hg. inversion Hg; subst g; clear Hg.
+  vm_compute in Hhg. inversion Hhg; subst hg; clear Hhg.
+  vm_compute in Hcc. inversion Hcc; subst cc; clear Hcc.
+  assert (length S <= 1)%nat.
+  { apply (NoDup_all_eq 1); auto. intros k Hk. destruct (Hall k Hk) as [_ Hs].
+    unfold signed_by in Hs. simpl in Hs. destruct Hs as [Hs|[Hs|[]]]; inversion Hs; auto. }
+  simpl in Hlen. lia.
+Qed.
+
+Lemma w3_not_quorum : ~ governed_quorum w3_store w3_header.
+Proof.
+  intros (g & hg & cc & Hg & Hhg & Hcc & S & Hnd & Hlen & Hall).
+  vm_compute in Hg. inversion Hg; subst g; clear Hg.
+  vm_compute in Hhg. inversion Hhg; subst hg; clear Hhg.
+  vm_compute in Hcc. inversion Hcc; subst cc; clear Hcc.
+  destruct S as [|k S]; [simpl in Hlen; lia|].
+  destruct (Hall k (or_introl eq_refl)) as [Hm Hs].
+  unfold signed_by in Hs. simpl in Hs, Hm.
+  destruct Hs as [Hs|[Hs|[]]]; inversion Hs; subst k; clear Hs;
+    repeat (destruct Hm as [Hm|Hm]; [discriminate Hm|]); exact Hm.
+Qed.
+
+Lemma header_accept_refuted_w1 : ~ header_accept_statement.
+Proof.
+  intros Hst. apply w1_not_quorum.
+  apply (Hst w1_store w1_header None); [reflexivity|discriminate|vm_compute; reflexivity].
+Qed.
+
+(** each of the three finding classes is needed: the statement restricted to the complement of
+    the two others is still false *)
+Lemma header_accept_refuted_dup :
+  ~ (forall st h r, store_wf st -> h_height h <> 0 -> verify_header st h = ROk r ->
+       fc_stale st h = false -> fc_threshold st h = false -> governed_quorum st h).
+Proof.
+  intros Hst. apply w2_not_quorum.
+  apply (Hst w2_store w2_header None); [reflexivity|discriminate|vm_compute; reflexivity|reflexivity|reflexivity].
+Qed.
+
+Lemma header_accept_refuted_stale :
+  ~ (forall st0 st h r, store_inv st0 -> reachable st0 st -> h_height h <> 0 ->
+       verify_header st h = ROk r ->
+       fc_threshold st h = false -> fc_dup h = false -> governed_quorum st h).
+Proof.
+  intros Hst. apply w3_not_quorum.
+  assert (Hinv : store_inv w2_store).
+  { constructor; [reflexivity| | |].
+    - intros j x [Hi|[]]; inversion Hi; subst; vm_compute; discriminate.
+    - unfold keys_nodup; simpl. constructor; auto; constructor.
+    - unfold keys_nodup; simpl. constructor; auto; constructor. }
+  apply (Hst w2_store w3_store w3_header None Hinv);
+    [|discriminate|vm_compute; reflexivity|reflexivity|reflexivity].
+  eapply reach_add; [apply reach_refl| | |apply w3_reachable]; vm_compute; reflexivity.
+Qed.
+
+Lemma witnesses_in_class :
+  (fc_threshold w1_store w1_header = true /\ fc_stale w1_store w1_header = false /\ fc_dup w1_header = false) /\
+  (fc_dup w2_header = true /\ fc_stale w2_store w2_header = false /\ fc_threshold w2_store w2_header = false) /\
+  (fc_stale w3_store w3_header = true /\ fc_threshold w3_store w3_header = false /\ fc_dup w3_header = false).
+Proof. vm_compute. repeat split. Qed.
+
+Lemma good_header_accepted :
+  store_wf w2_store /\ h_height good_header <> 0 /\ verify_header w2_store good_header = ROk None /\
+  in_finding_class w2_store good_header = false.
+Proof. repeat split; try (vm_compute; reflexivity). discriminate. Qed.
+
+Lemma hs_vbft_m_bounds n : (1 <= n)%Z -> (1 <= hs_vbft_m n <= n)%Z.
+Proof. unfold hs_vbft_m; lia. Qed.
+
+Lemma accept_partial_histories st0 st h r :
+  store_inv st0 -> reachable st0 st ->
+  h_height h <> 0 -> verify_header st h = ROk r -> in_finding_class st h = false ->
+  governed_quorum st h.
+Proof. intros H0 Hr. apply accept_partial. exact (inv_wf _ (reachable_inv _ _ H0 Hr)). Qed.
+
+(** W4: the peer-map entry of a configuration height overwritten by the side effect of an accepted
+    verifyHeader call on a header that is not the indexed one (the AddBlock path).  Store: genesis
+    N=7, C=2; indexed header 1 carries configuration A (peers 8..21, C=1).  A forged header at
+    height 1 (three genesis members listed, ONE signature: class fc_threshold) carrying the
+    configuration {C=0, peers=22..35} is run through verifyHeader: accepted, entry 1 := 22..35.
+    Then a header at height 2 naming height 1, listing and signed by keys 22 and 23 (no members
+    of A), is accepted: C = 1 is read from the indexed header, the peer set from the map. *)
+Definition peers14c : list key := [22;23;24;25;26;27;28;29;30;31;32;33;34;35].
+Definition w4_h1 : header :=
+  {| h_height := 1; h_prev := 100; h_time := 1;
+     h_info := Some {| bi_last := 0; bi_newcfg := Some {| cc_c := 1; cc_peers := peers14 |} |};
+     h_bks := peers7; h_sigs := map (fun k => SBy k 101) peers7; h_hash := 101 |}.
+Definition w4_forged : header :=
+  {| h_height := 1; h_prev := 100; h_time := 1;
+     h_info := Some {| bi_last := 0; bi_newcfg := Some {| cc_c := 0; cc_peers := peers14c |} |};
+     h_bks := [1;2;3]; h_sigs := [SBy 1 111]; h_hash := 111 |}.
+Definition w4_store0 : store :=
+  match add_header w1_store w4_h1 with AddOk st => st | _ => w1_store end.
+Definition w4_store : store := apply_verify w4_store0 (verify_header w4_store0 w4_forged).
+Definition w4_header : header :=
+  {| h_height := 2; h_prev := 101; h_time := 2;
+     h_info := Some {| bi_last := 1; bi_newcfg := None |};
+     h_bks := [22;23]; h_sigs := [SBy 22 202; SBy 23 202]; h_hash := 202 |}.
+
+Lemma w4_facts :
+  store_wf w4_store0 /\ verify_header w4_store0 w4_forged = ROk (Some (1, peers14c)) /\
+  store_wfb w4_store = false /\
+  verify_header w4_store w4_header = ROk None /\
+  in_finding_class w4_store w4_header = false /\ fc_overwritten w4_store w4_header = true.
+Proof. vm_compute. repeat split. Qed.
+
+Lemma w4_not_quorum : ~ governed_quorum w4_store w4_header.
+Proof.
+  intros (g & hg & cc & Hg & Hhg & Hcc & S & Hnd & Hlen & Hall).
+  vm_compute in Hg. inversion Hg; subst g; clear Hg.
+  vm_compute in Hhg. inversion Hhg; subst hg; clear Hhg.
+  vm_compute in Hcc. inversion Hcc; subst cc; clear Hcc.
+  destruct S as [|k S]; [simpl in Hlen; lia|].
+  destruct (Hall k (or_introl eq_refl)) as [Hm Hs].
+  unfold signed_by in Hs. simpl in Hs, Hm.
+  destruct Hs as [Hs|[Hs|[]]]; inversion Hs; subst k; clear Hs;
+    repeat (destruct Hm as [Hm|Hm]; [discriminate Hm|]); exact Hm.
+Qed.
+
+Lemma header_accept_refuted_overwritten :
+  ~ (forall st h r, h_height h <> 0 -> verify_header st h = ROk r ->
+       in_finding_class st h = false -> governed_quorum st h).
+Proof.
+  intros Hst. apply w4_not_quorum.
+  apply (Hst w4_store w4_header None); [discriminate|vm_compute; reflexivity|vm_compute; reflexivity].
 Qed.
